@@ -60,8 +60,10 @@ func c15(c *Ctx) {
 					l.Tags[k] = "scribbled"
 				}
 				l.Tags["new-key"] = "x"
+			} else {
+				l.Tags = map[string]string{"new-key": "x"}
 			}
-			l.Nick, l.Cmd = "scribbled", "SCRIBBLED"
+			l.Nick, l.Ident, l.Host, l.Src, l.Cmd, l.Time = "scribbled", "scribbled", "scribbled", "scribbled", "SCRIBBLED", time.Time{}
 			tk <- struct{}{}
 		}
 		// keepers: handlers that change nothing but keep the *Line they were given (with a record of what it said):
@@ -108,6 +110,14 @@ func c15(c *Ctx) {
 				sb.WriteString([]string{"@ ", "@; ", "@;; "}[c.R.N(3)])
 			case 5:
 				sb.WriteString("@flag ")
+			}
+			if c.R.P(1, 8) {
+				// a line with nothing a copy would have to duplicate: no tags, no parameters - its scalar fields are
+				// the handler's own all the same
+				raw := fmt.Sprintf(":n%d!u@h PRIVMSG", i)
+				raws = append(raws, raw)
+				sess.srv.SendLine(raw)
+				continue
 			}
 			sb.WriteString(fmt.Sprintf(":n%d!u@h PRIVMSG", i))
 			na := c.R.N(15)
